@@ -138,6 +138,7 @@ type violGroup struct {
 	Index  int // first failing run index
 	Seed   uint64
 	Engine string
+	Others []int // further failing run indexes with the same signature (candidates if the first does not replay)
 }
 
 func newAgg() *agg {
@@ -185,6 +186,9 @@ func (a *agg) addFrom(property string, r *lineResult, engine string) {
 			a.viol[k] = g
 		}
 		g.Count++
+		if r.Index != g.Index && len(g.Others) < 12 {
+			g.Others = append(g.Others, r.Index)
+		}
 		if r.Index < g.Index {
 			g.Index, g.Seed, g.V = r.Index, r.Seed, v
 		}
@@ -541,6 +545,22 @@ func cmdCheck(id, tier string) int {
 			vbin, vengine, vops = alsoBin, spec.Also, alsoOps
 		}
 		path, status := reportViolation(vbin, id, vengine, master, g, tmp, vops)
+		if status != "violation" {
+			// a failure that depended on what earlier runs left behind in the worker process does not replay
+			// in a fresh one; another run with the same signature may stand on its own
+			sort.Ints(g.Others)
+			for _, alt := range g.Others {
+				if alt == g.Index {
+					continue
+				}
+				h := *g
+				h.Index = alt
+				if p2, s2 := reportViolation(vbin, id, vengine, master, &h, tmp, vops); s2 == "violation" {
+					path, status = p2, s2
+					break
+				}
+			}
+		}
 		switch status {
 		case "violation":
 			fmt.Printf("VIOLATION property=%s replay=%s\n", id, path)
